@@ -4,6 +4,7 @@ import Proofs.ChainLive
 import Proofs.PCQueueRefine
 import Proofs.PCQueueEintr
 import Proofs.ChainStream
+import Proofs.ChainPoolSys
 /-!
 # C17 — Queues and chains deliver each item exactly once, in order, and terminate
 
@@ -436,5 +437,55 @@ example : (Stream.collect 10 (Stream.init [[1, 2], [], [], [3], []])).1 = [some 
         = [some 1, some 2, none, none] := by decide
 
 end stream
+
+/-! ## Part 7: the composed system — clients running on the STEP-LEVEL queues
+
+`lean/Model/PCQueueSys.lean`: any number of client threads, each an arbitrary program over a local state that
+touches any number of queues only through `Produce` / `Consume` (plus local steps and waiting for another thread's
+local state: thread start, `join`).  In the step-level system (`cstep`) every queue is a `PCQueue.State` of Part 1
+(semaphores, mutexes, ring, cursors), a call arms the thread's entry in that queue, the micro-steps are the steps
+of Part 1 with the hook-point program counters, the return hands the value to the client; `cintr` is an EINTR of a
+thread inside an operation.  In the atomic system (`astep`) every queue is a list with `fifoPush` / `fifoPop`.
+Abstraction `abs`: queue content = values written and not yet read; a thread inside an operation has made its
+abstract step iff it has passed its critical-section body. -/
+section composed
+open KV.Sys KV.Chain
+
+/-- **Client-generic stuttering refinement** (any client programs, any number of queues and threads, any
+capacities ≥ 1, any schedule, arbitrary EINTR interrupts): every step of the composed step-level system is a
+stutter step or exactly one step of the atomic-FIFO system under `abs` (forward simulation, `sim_step`), an
+interrupt is a stutter step, and hence every reachable state of the step-level system abstracts to a reachable
+state of the atomic system running the same programs. -/
+theorem steplevel_refines_atomic {σ : Type} (P : Prog σ) (loc0 : Nat → σ) (hcap : ∀ q, 0 < P.cap q) :
+    (∀ c c' t, CInv P c → cstep P c t = some c' →
+        CInv P c' ∧ (Sys.abs c' = Sys.abs c ∨ astep P (Sys.abs c) t = some (Sys.abs c')))
+    ∧ (∀ (c c' : CState σ) t, cintr c t = some c' → c' = c)
+    ∧ (∀ c, CReach P (cinit P loc0) c → CInv P c ∧ AReach P (ainit loc0) (Sys.abs c)) :=
+  ⟨fun _ _ _ h hs => sim_step h hs, fun _ _ _ hs => sim_intr hs, fun _ hr => creach_refines hcap hr⟩
+
+/-- **ThreadPool on the step-level queue.**  The ThreadPool as client program (`poolProg`: the user thread produces
+the requests and one poison per worker and joins the workers; worker `i` consumes until poison) running on the
+step-level `PCQueue` with arbitrary interrupts: the abstraction of every reachable state is a reachable state of
+the `Pool` model, so the safety clauses of `pool_exactly_once` hold for it: conservation of
+`requests ++ poison^w` (nothing lost, duplicated or reordered), per-worker attribution, capacity, and — once the
+abstract state says everything has finished — every request handled exactly once.  (The abstract no-deadlock and
+measure clauses also hold for the denoted `Pool` state; deadlock freedom of the *composed* system itself is not
+derived: it needs the per-queue `no_deadlock` composed with the clients, see design notes.) -/
+theorem pool_exactly_once_steplevel {w : Nat} {reqs : List Nat} (hw : 0 < w) (hcap : 0 < cap)
+    {c : CState PLoc} (hr : CReach (poolProg cap w) (cinit (poolProg cap w) (poolLoc0 w reqs)) c) :
+    let p := toPool cap w (Sys.abs c)
+    Pool.Reach (Pool.init cap w reqs) p
+    ∧ p.log.map (·.2) ++ p.q ++ p.todo = reqs.map Item.val ++ List.replicate w Item.poison
+    ∧ (∀ i, i < w → p.handled.getD i [] = ((p.log.filter (fun x => x.1 == i)).map (·.2)).filterMap Item.val?)
+    ∧ p.q.length ≤ cap
+    ∧ (p.allDone = true →
+        (p.log.map (·.2)).filterMap Item.val? = reqs ∧ p.q = [] ∧ p.wpc.all (· == .finished) = true) := by
+  intro p
+  obtain ⟨_, ha⟩ := creach_refines (P := poolProg cap w) (fun _ => hcap) hr
+  obtain ⟨_, hp⟩ := pool_areach ha
+  obtain ⟨h1, h2, h3, _, _, h6⟩ := pool_exactly_once hw hcap hp
+  exact ⟨hp, h1, h2, h3, h6⟩
+
+end composed
 
 end KV.C17
